@@ -58,6 +58,30 @@ Definition add_w (m : arith_mode) (w a b : N) : outcome N :=
 Definition sub_w (m : arith_mode) (w a b : N) : outcome N :=
   if b <=? a then Ok (a - b) else match m with Debug => Panic | Release => Ok ((w + a - b) mod w) end.
 
+(* &s[a..b] on a str: the byte-range rule of slices plus the char-boundary rule -- an index inside a
+   multi-byte UTF-8 sequence (a continuation byte 0x80..0xBF at that offset) panics *)
+Definition is_char_boundary (bytes : list N) (i : N) : bool :=
+  if i =? 0 then true
+  else if i =? len bytes then true
+  else if len bytes <? i then false
+  else match nth_error bytes (N.to_nat i) with
+       | Some b => negb ((128 <=? b) && (b <=? 191))
+       | None => false
+       end.
+Definition str_slice (s : string) (a b : N) : outcome string :=
+  let bytes := codes s in
+  if (a <=? b) && (b <=? len bytes) && is_char_boundary bytes a && is_char_boundary bytes b
+  then Ok (of_codes (firstn (N.to_nat (b - a)) (skipn (N.to_nat a) bytes)))
+  else Panic.
+
+(* std::time::SystemTime as nanoseconds since the epoch (Unix: i64 seconds + nanoseconds).
+   `t + d` panics on overflow ("overflow when adding duration to instant"); duration_since / elapsed
+   return Err when the argument is later and never panic *)
+Definition ST_MAX : N := 9223372036854775807 * 1000000000 + 999999999.
+Definition st_add (t d : N) : outcome N := if t + d <=? ST_MAX then Ok (t + d) else Panic.
+Definition st_duration_since (later earlier : N) : outcome N :=
+  if earlier <=? later then Ok (later - earlier) else Err 0.
+
 (* ------------------------------------------------------------------ hex (the `hex` crate, in full) *)
 Definition hex_decode (s : string) : outcome (list N) :=
   match unhex s with Some l => Ok l | None => Err 0 end.
@@ -102,6 +126,15 @@ Definition scratch_to_hex (owner : list N) : string := tohex owner.
 Definition str_to_addr (s : string) : outcome (list N) :=
   bind (map_err 1 (hex_decode s)) (fun bytes => map_err 2 (try_into bytes XOR_NAME_LEN)).
 Definition addr_to_str (x : list N) : string := tohex x.
+
+(* NOT the code: a well-meant "accept a 0x prefix" variant that slices the text at byte 2 when it is 66
+   bytes long -- kept only for `str_slice_prefix_refuted` (why such probes are in the generated stream) *)
+Definition str_to_addr_prefix_tolerant (s : string) : outcome (list N) :=
+  if slen s =? 66 then
+    bind (str_slice s 0 2) (fun pre =>
+    if String.eqb pre "0x" || String.eqb pre "0X"
+    then bind (str_slice s 2 66) str_to_addr else str_to_addr s)
+  else str_to_addr s.
 
 Definition datamap_from_hex (s : string) : outcome (list N) := map_err 1 (hex_decode s).
 Definition datamap_to_hex (d : list N) : string := tohex d.
